@@ -2,7 +2,7 @@
 # Applies /tmp/mut-<id>/deliver/patch.diff (or /verif/seeded/<id>/patch.diff) to /repo, runs every
 # quick check, undoes the change straight afterwards. Output: one line per check.
 id="$1"; shift
-patch=/tmp/mut-$id/deliver/patch.diff
+patch=${PATCHDIR:-/tmp/mut-$id/deliver}/patch.diff
 [ -f "$patch" ] || patch=/verif/seeded/$id/patch.diff
 cd /repo || exit 2
 if [ -n "$(git status --porcelain)" ]; then echo "repo dirty"; exit 2; fi
